@@ -106,6 +106,20 @@ CLAIMED = {
               "(two_cards_maximum). The model of expand_data_card and of the importance-card merge is compared with the "
               "code on generated and malformed token lists (values and error class)."),
         design_ref='§8 C12'),
+    'C15': dict(
+        technique='Lean 4 proof (fold invariant of parse_keywords: the later keyword wins; induction over LIKE chains) + model↔code correspondence on option token lists + differential conversion of LIKE decks against their expansion',
+        text=("Proved in Lean for option lists of any length: parse_keywords is a left fold of assignments, so after "
+              "`LIKE n BUT opts` (apply_but = cell n's options followed by opts) every scalar option (U, MAT, RHO, LAT, "
+              "FILL, TRCL) named in opts takes its value from opts and every other keeps cell n's value "
+              "(later_keyword_wins, like_but); the result equals that of the explicit card in which the overridden "
+              "options are replaced (like_but_equals_explicit); chains of LIKE cells iterate the statement "
+              "(like_chain); importances are kept per particle and the last IMP item listing a particle gives its "
+              "value (later_importance_wins). The token-level model of parse_keywords (keyword tests in their order, "
+              "arguments popped, greedy numeric arguments of FILL/TRCL, LAT validation, missing values) is compared "
+              "with the code on random option lists; every generated LIKE deck is converted as written and expanded, "
+              "and the outputs must be identical. Not proved: the token→item grouping commutes with concatenation "
+              "(correspondence only); the array form of FILL is outside the model."),
+        design_ref='§8 C15'),
     'C16': dict(
         technique='Lean 4 proof (decision logic of the boundary-condition writer on the model) + model↔code correspondence + locus check of the designated surface in the written file',
         text=("Proved in Lean on the model of the boundary-condition collection: exactly one entry per flagged surface, "
